@@ -1205,8 +1205,19 @@ impl Writer {
       // If all_irrelevant_before is still None, then TopicCache has SNs that are
       // less than equal to the requested "unsent_sn". But might not have that exact
       // SN.
+      // A sample written for one particular reader is never sent to anyone else,
+      // so to other readers it is not relevant. This happens e.g. when a reader is
+      // matched after the sample was written, so no pending GAP was recorded for it.
+      let meant_for_other_reader = self
+        .history_buffer
+        .get_by_sn(unsent_sn)
+        .and_then(|cc| cc.write_options.to_single_reader())
+        .is_some_and(|single_reader_guid| single_reader_guid != reader_guid);
+
       if pending_gaps.contains(&unsent_sn) || all_irrelevant_before.is_some() {
         no_longer_relevant.extend(pending_gaps);
+      } else if meant_for_other_reader {
+        no_longer_relevant.insert(unsent_sn);
       } else {
         // Reader not pending gap on unsent_sn. Get the cache change from topic cache
         if let Some(cc) = self.history_buffer.get_by_sn(unsent_sn) {
